@@ -60,6 +60,10 @@ def run(prop, tier):
             "input_tokens": agg["tokens"],
             "input_lines": agg["lines"],
             "failure_counts": {k: v for k, v in agg["fail_counts"].items() if k.startswith(prop)},
+            "layer_b_violations_replayed_through_lean": agg.get("bfix_replayed"),
+            "layer_b_replayed_by_owner": agg.get("bfix_by_owner"),
+            "layer_b_unmodelled_owner_violations": agg.get("bfix_unmodelled"),
+            "layer_b_skipped_overlapping": agg.get("bfix_skipped_overlap"),
             "sweep_from_cache": agg.get("from_cache"),
             "sweep_wall_s": agg.get("wall"),
         }
